@@ -18,7 +18,7 @@ Length == {"exact", "longer"}                                 \* the string is e
 Enc == [coord : Coord, flags : Flags, spare : Spare, curve : Curve, sub : Sub, length : Length]
 \* formats: whether the format has spare bits, and whether the library relies on subgroup membership
 Formats == {"bls12381-g1", "bls12381-g2", "bls-pk", "sec1-p256", "sec1-p384", "sec1-p521", "ed448-point", "ed25519-key",
-            "ristretto255", "fourq-point", "curve4q-shared", "oprf-pk", "mlkem-ek", "eddsa-scheme-key"}
+            "ristretto255", "fourq-point", "curve4q-shared", "oprf-pk", "mlkem-ek", "eddsa-scheme-key", "xkem-key"}
 NeedsSubgroup(f) == f \in {"bls12381-g1", "bls12381-g2", "bls-pk", "sec1-p256", "sec1-p384", "sec1-p521", "ristretto255", "oprf-pk", "curve4q-shared"}
 Accept(f, e) == /\ e.coord = "in-range" /\ e.flags = "ok" /\ e.spare = "zero" /\ e.curve = "on-curve" /\ e.length = "exact"
                 /\ (NeedsSubgroup(f) => e.sub = "in-subgroup")
